@@ -154,9 +154,15 @@ func ruleIOErr(p *Prog, r *RuleResult) {
 					}
 				}
 			} else if callee := c.StaticCallee(); callee != nil && p.Rel(callee) == "bitstream" {
+				flushFn := p.MethodOpt("bitstream", "DefaultOutputBitStream", "flush")
+				refillFn := p.MethodOpt("bitstream", "DefaultInputBitStream", "readFromInputStream")
+				switch {
+				case callee == flushFn && flushFn != nil:
+					what = "bitstream.flush"
+				case callee == refillFn && refillFn != nil:
+					what = "bitstream.readFromInputStream"
+				}
 				switch callee.Name() {
-				case "flush", "readFromInputStream":
-					what = "bitstream." + callee.Name()
 				case "Close":
 					what = "task-local bitstream Close"
 				}
@@ -460,7 +466,21 @@ func ruleCloseOrder(p *Prog, r *RuleResult) {
 		undecided("anchor unresolved: io.Writer.%s", name)
 		return nil
 	}
-	closedF, finalF := fieldOfWriter("closed"), fieldOfWriter("finalized")
+	// the closed flag: the field tested by the entry block of Close; the finalized flag: the field set to 1 right after
+	// the end marker (resolved structurally, names are only a fallback)
+	var closedF, finalF *types.Var
+	if ifi := blockIf(wc.Blocks[0]); ifi != nil {
+		atom, _ := condAtom(ifi.Cond)
+		if bo, ok := atom.(*ssa.BinOp); ok {
+			if c, ok := bo.X.(*ssa.Call); ok && isAtomic(&c.Call, "LoadInt32", "SwapInt32") && len(c.Call.Args) > 0 {
+				closedF = fieldVarOfAddr(c.Call.Args[0])
+			}
+		}
+	}
+	if closedF == nil {
+		closedF = fieldOfWriter("closed")
+	}
+	_ = wt
 	atomicStoreTo := func(f *ssa.Function, fv *types.Var) []ssa.Instruction {
 		var out []ssa.Instruction
 		eachInstr(f, func(i ssa.Instruction) {
@@ -478,7 +498,7 @@ func ruleCloseOrder(p *Prog, r *RuleResult) {
 		return out
 	}
 	closedStores := atomicStoreTo(wc, closedF)
-	finalStores := atomicStoreTo(wc, finalF)
+	var finalStores []ssa.Instruction
 	var pbCall, obsClose, sinkClose *ssa.Call
 	var markers []ssa.Instruction
 	eachInstr(wc, func(i ssa.Instruction) {
@@ -486,7 +506,7 @@ func ruleCloseOrder(p *Prog, r *RuleResult) {
 		if !ok {
 			return
 		}
-		if callee := c.Call.StaticCallee(); callee != nil && callee.Name() == "processBlock" {
+		if callee := c.Call.StaticCallee(); callee != nil && callee == p.MethodOpt("io", "Writer", "processBlock") {
 			pbCall = c
 		}
 		if c.Call.IsInvoke() {
@@ -516,7 +536,7 @@ func ruleCloseOrder(p *Prog, r *RuleResult) {
 	memo := map[*ssa.Function]int{}
 	eachInstr(wc, func(i ssa.Instruction) {
 		h := helperCallee(i, FnPkg(wc))
-		if h == nil || (pbCall != nil && i == ssa.Instruction(pbCall)) || h.Name() == "processBlock" || h.Name() == "writeHeader" {
+		if h == nil || (pbCall != nil && i == ssa.Instruction(pbCall)) || h == p.MethodOpt("io", "Writer", "processBlock") || h == p.MethodOpt("io", "Writer", "writeHeader") {
 			return
 		}
 		if p.containsDeep(h, isZeroWrite, memo) {
@@ -530,6 +550,25 @@ func ruleCloseOrder(p *Prog, r *RuleResult) {
 	})
 	if pbCall == nil || obsClose == nil || len(closedStores) == 0 {
 		undecided("%s: cannot find processBlock call / bitstream Close / closed store", wname)
+	}
+	// finalized: an atomic store of 1 (not a CAS) to another field, made after the end marker was written
+	eachInstr(wc, func(i ssa.Instruction) {
+		c := callOf(i)
+		if c == nil || !isAtomic(c, "StoreInt32", "SwapInt32") || len(c.Args) != 2 {
+			return
+		}
+		fv := fieldVarOfAddr(c.Args[0])
+		if v, ok := constInt(c.Args[1]); !ok || v != 1 || fv == nil || fv == closedF {
+			return
+		}
+		for _, m := range markers {
+			if instrReaches(m, i) {
+				finalF = fv
+			}
+		}
+	})
+	if finalF != nil {
+		finalStores = atomicStoreTo(wc, finalF)
 	}
 	n := 0
 	mustFollowOK := func(call *ssa.Call, callName string, targets []ssa.Instruction, tname string, mustDominate bool) {
@@ -596,11 +635,11 @@ func ruleCloseOrder(p *Prog, r *RuleResult) {
 	var flushCall *ssa.Call
 	var closedSt []ssa.Instruction
 	eachInstr(oc, func(i ssa.Instruction) {
-		if c, ok := i.(*ssa.Call); ok && c.Call.StaticCallee() != nil && c.Call.StaticCallee().Name() == "flush" {
+		if c, ok := i.(*ssa.Call); ok && c.Call.StaticCallee() != nil && c.Call.StaticCallee() == p.MethodOpt("bitstream", "DefaultOutputBitStream", "flush") {
 			flushCall = c
 		}
 		if st, ok := i.(*ssa.Store); ok {
-			if fv := fieldVarOfAddr(st.Addr); fv != nil && fv.Name() == "closed" {
+			if fv := fieldVarOfAddr(st.Addr); fv != nil && isBool(fv.Type()) {
 				if c, ok := st.Val.(*ssa.Const); ok && c.Value != nil && c.Value.String() == "true" {
 					closedSt = append(closedSt, i)
 				}
@@ -625,6 +664,7 @@ func ruleCloseOrder(p *Prog, r *RuleResult) {
 
 func ruleLifecycle(p *Prog, r *RuleResult) {
 	n := 0
+	var wantField, gotField *types.Var
 	entryTest := func(f *ssa.Function, wantAtomic []string) (*ssa.If, *ssa.BasicBlock, bool) {
 		b := f.Blocks[0]
 		// skip over the entry block if it only installs a deferred handler and jumps
@@ -641,8 +681,10 @@ func ruleLifecycle(p *Prog, r *RuleResult) {
 		if !ok || !isAtomic(&c.Call, wantAtomic...) {
 			return nil, nil, false
 		}
-		if fv := fieldVarOfAddr(c.Call.Args[0]); fv == nil || fv.Name() != "closed" {
+		if fv := fieldVarOfAddr(c.Call.Args[0]); fv == nil || (wantField != nil && fv != wantField) {
 			return nil, nil, false
+		} else {
+			gotField = fv
 		}
 		if k, ok := constInt(bo.Y); !ok || k != 1 {
 			return nil, nil, false
@@ -662,40 +704,14 @@ func ruleLifecycle(p *Prog, r *RuleResult) {
 		}
 		return ifi, b.Succs[succFor(pos, true)], true
 	}
-	for _, m := range [][2]string{{"Writer", "Write"}, {"Reader", "Read"}} {
-		f := p.Method("io", m[0], m[1])
-		fname := p.FnName(f)
-		n++
-		ifi, tb, ok := entryTest(f, []string{"LoadInt32"})
-		if !ok {
-			r.fail(fname+"#closed-test", p.Pos(f.Pos()), fmt.Sprintf("%s does not test the closed flag first: a call after Close has side effects or succeeds", m[1]))
-			continue
-		}
-		ret, isRet := tb.Instrs[len(tb.Instrs)-1].(*ssa.Return)
-		effect := false
-		for _, in := range tb.Instrs {
-			switch x := in.(type) {
-			case *ssa.Store:
-				if fa, ok := x.Addr.(*ssa.FieldAddr); ok {
-					if _, isAlloc := fa.X.(*ssa.Alloc); !isAlloc {
-						effect = true
-					}
-				}
-			case *ssa.Call:
-				effect = true
-			}
-		}
-		if !isRet || len(ret.Results) != 2 || !isZeroConst(ret.Results[0]) || mayBeNil(ret.Results[1], 0) || effect {
-			r.fail(fname+"#closed-test", p.IPos(ifi), fmt.Sprintf("%s on a closed stream does not immediately return (0, error) without side effects", m[1]))
-		} else {
-			r.ok(fname+": closed stream -> (0, error) at entry, no effect", p.IPos(ifi))
-		}
-	}
+	closedOf := map[string]*types.Var{}
 	for _, m := range [][3]string{{"Writer", "Close", "LoadInt32"}, {"Reader", "Close", "SwapInt32"}} {
 		f := p.Method("io", m[0], m[1])
 		fname := p.FnName(f)
 		n++
+		gotField = nil
 		ifi, tb, ok := entryTest(f, []string{m[2], "LoadInt32", "SwapInt32"})
+		closedOf[m[0]] = gotField
 		if !ok {
 			r.fail(fname+"#idempotent", p.Pos(f.Pos()), "Close does not test the closed flag first: a repeated Close is not a no-op")
 			continue
@@ -725,12 +741,43 @@ func ruleLifecycle(p *Prog, r *RuleResult) {
 			r.ok(fname+": already closed -> nil at entry", p.IPos(ifi))
 		}
 	}
+	for _, m := range [][2]string{{"Writer", "Write"}, {"Reader", "Read"}} {
+		f := p.Method("io", m[0], m[1])
+		fname := p.FnName(f)
+		n++
+		wantField = closedOf[m[0]]
+		ifi, tb, ok := entryTest(f, []string{"LoadInt32"})
+		wantField = nil
+		if !ok {
+			r.fail(fname+"#closed-test", p.Pos(f.Pos()), fmt.Sprintf("%s does not test the closed flag first: a call after Close has side effects or succeeds", m[1]))
+			continue
+		}
+		ret, isRet := tb.Instrs[len(tb.Instrs)-1].(*ssa.Return)
+		effect := false
+		for _, in := range tb.Instrs {
+			switch x := in.(type) {
+			case *ssa.Store:
+				if fa, ok := x.Addr.(*ssa.FieldAddr); ok {
+					if _, isAlloc := fa.X.(*ssa.Alloc); !isAlloc {
+						effect = true
+					}
+				}
+			case *ssa.Call:
+				effect = true
+			}
+		}
+		if !isRet || len(ret.Results) != 2 || !isZeroConst(ret.Results[0]) || mayBeNil(ret.Results[1], 0) || effect {
+			r.fail(fname+"#closed-test", p.IPos(ifi), fmt.Sprintf("%s on a closed stream does not immediately return (0, error) without side effects", m[1]))
+		} else {
+			r.ok(fname+": closed stream -> (0, error) at entry, no effect", p.IPos(ifi))
+		}
+	}
 	// header before the empty-buffer return
 	pb := p.Method("io", "Writer", "processBlock")
 	pname := p.FnName(pb)
 	var wh *ssa.Call
 	eachInstr(pb, func(i ssa.Instruction) {
-		if c, ok := i.(*ssa.Call); ok && c.Call.StaticCallee() != nil && c.Call.StaticCallee().Name() == "writeHeader" {
+		if c, ok := i.(*ssa.Call); ok && c.Call.StaticCallee() != nil && c.Call.StaticCallee() == p.MethodOpt("io", "Writer", "writeHeader") {
 			wh = c
 		}
 	})
@@ -746,11 +793,11 @@ func ruleLifecycle(p *Prog, r *RuleResult) {
 		if !ok || bo.Op != token.EQL || !isZeroConst(bo.Y) {
 			continue
 		}
-		if fv := fieldVarOfLoad(bo.X); fv == nil || fv.Name() != "available" {
+		if fv := fieldVarOfLoad(bo.X); fv == nil {
 			continue
 		}
 		tb := b.Succs[succFor(pos, true)]
-		if _, ok := tb.Instrs[len(tb.Instrs)-1].(*ssa.Return); !ok {
+		if ret, ok := tb.Instrs[len(tb.Instrs)-1].(*ssa.Return); !ok || len(ret.Results) != 1 || !definitelyNil(ret.Results[0]) {
 			continue
 		}
 		found = true
@@ -771,6 +818,53 @@ func ruleLifecycle(p *Prog, r *RuleResult) {
 
 func ruleBsClosed(p *Prog, r *RuleResult) {
 	n := 0
+	// field names are resolved from the code that gives them their role: closed = what Closed() returns,
+	// availBits = what the single-bit operation tests first, maxPosition = what pull() compares the position with
+	roleField := func(typ, role string) string {
+		first := func(m string, second bool) string {
+			f := p.MethodOpt("bitstream", typ, m)
+			if f == nil || f.Blocks == nil {
+				return ""
+			}
+			if ifi := blockIf(f.Blocks[0]); ifi != nil {
+				atom, _ := condAtom(ifi.Cond)
+				if bo, ok := atom.(*ssa.BinOp); ok {
+					v := bo.X
+					if second {
+						v = bo.Y
+					}
+					if fv := fieldVarOfLoad(v); fv != nil {
+						return fv.Name()
+					}
+				}
+			}
+			return ""
+		}
+		switch role {
+		case "closed":
+			if f := p.MethodOpt("bitstream", typ, "Closed"); f != nil && f.Blocks != nil {
+				for _, b := range f.Blocks {
+					if ret, ok := b.Instrs[len(b.Instrs)-1].(*ssa.Return); ok && len(ret.Results) == 1 {
+						if fv := fieldVarOfLoad(ret.Results[0]); fv != nil {
+							return fv.Name()
+						}
+					}
+				}
+			}
+		case "availBits":
+			for _, m := range []string{"ReadBit", "WriteBit"} {
+				if n := first(m, false); n != "" {
+					return n
+				}
+			}
+		case "maxPosition":
+			if n := first("pull", true); n != "" {
+				return n
+			}
+		}
+		return role
+	}
+
 	closeStores := func(typ string, want map[string]string) {
 		f := p.Method("bitstream", typ, "Close")
 		fname := p.FnName(f)
@@ -819,7 +913,7 @@ func ruleBsClosed(p *Prog, r *RuleResult) {
 						if c, ok := atom.(*ssa.Call); ok && c.Call.StaticCallee() != nil && c.Call.StaticCallee().Name() == "Closed" {
 							isClosedTest = true
 						}
-						if fv := fieldVarOfLoad(atom); fv != nil && fv.Name() == "closed" {
+						if fv := fieldVarOfLoad(atom); fv != nil && fv.Name() == roleField(typ, "closed") {
 							isClosedTest = true
 						}
 						if isClosedTest && edgeDominates(f, edge{bb, succFor(pos, true)}, b) {
@@ -838,8 +932,8 @@ func ruleBsClosed(p *Prog, r *RuleResult) {
 			}
 		}
 	}
-	closeStores("DefaultOutputBitStream", map[string]string{"closed": "true", "availBits": "0"})
-	closeStores("DefaultInputBitStream", map[string]string{"closed": "true", "availBits": "0", "maxPosition": "-1"})
+	closeStores("DefaultOutputBitStream", map[string]string{roleField("DefaultOutputBitStream", "closed"): "true", roleField("DefaultOutputBitStream", "availBits"): "0"})
+	closeStores("DefaultInputBitStream", map[string]string{roleField("DefaultInputBitStream", "closed"): "true", roleField("DefaultInputBitStream", "availBits"): "0", roleField("DefaultInputBitStream", "maxPosition"): "-1"})
 	for _, m := range [][2]string{{"DefaultOutputBitStream", "flush"}, {"DefaultOutputBitStream", "WriteArray"}, {"DefaultInputBitStream", "readFromInputStream"}, {"DefaultInputBitStream", "ReadArray"}} {
 		f := p.Method("bitstream", m[0], m[1])
 		fname := p.FnName(f)
@@ -853,7 +947,7 @@ func ruleBsClosed(p *Prog, r *RuleResult) {
 			if c, ok := atom.(*ssa.Call); ok && c.Call.StaticCallee() != nil && c.Call.StaticCallee().Name() == "Closed" {
 				isClosedTest = true
 			}
-			if fv := fieldVarOfLoad(atom); fv != nil && fv.Name() == "closed" {
+			if fv := fieldVarOfLoad(atom); fv != nil && fv.Name() == roleField(m[0], "closed") {
 				isClosedTest = true
 			}
 			effect := false
@@ -1018,7 +1112,7 @@ func ruleSeqRevert(p *Prog, r *RuleResult) {
 	for _, b := range path {
 		for _, in := range b.Instrs {
 			if st, ok := in.(*ssa.Store); ok {
-				if fv := fieldVarOfAddr(st.Addr); fv != nil && fv.Name() == "skipFlags" {
+				if fv := fieldVarOfAddr(st.Addr); fv != nil && namedOf(st.Addr.(*ssa.FieldAddr).X.Type()) == seqT && typeBits(fv.Type()) == 8 {
 					cleared = true
 				}
 			}
@@ -1036,7 +1130,7 @@ func ruleSeqRevert(p *Prog, r *RuleResult) {
 	for b := range reach(okBlock, nil, map[*ssa.BasicBlock]bool{header: true}) {
 		for _, in := range b.Instrs {
 			if st, ok := in.(*ssa.Store); ok {
-				if fv := fieldVarOfAddr(st.Addr); fv != nil && fv.Name() == "skipFlags" {
+				if fv := fieldVarOfAddr(st.Addr); fv != nil && namedOf(st.Addr.(*ssa.FieldAddr).X.Type()) == seqT && typeBits(fv.Type()) == 8 {
 					clearedOK = true
 				}
 			}
